@@ -194,11 +194,44 @@ type HarnessResult struct {
 	Decisions   int
 	SolverTime  time.Duration
 	Unknowns    int
+	Retry       []RetryQuery // assertion queries that came back unknown / timed out: decided again, one at a time, after the exploration
 	Steps       int64
 	witnessed   map[string]bool
 	PathObs     []PathObs // product mode
 	ForkSites   map[string]int
 	KeepPathObs bool
+}
+
+// RetryQuery is an assertion query (path condition AND NOT assertion, relational encoding) that was not decided
+// within its time limit while all workers were busy.
+type RetryQuery struct {
+	Label   string
+	Decls   []string
+	Asserts []string
+	Ms      int
+}
+
+// RetryUnknowns decides the undecided assertion queries of a harness again, sequentially, each in a fresh solver
+// process with twice the time limit (solver strategies are time-sliced, so a query that closes in seconds on an
+// idle machine can time out under load). Only "unsat" changes the books; anything else stays inconclusive.
+func (r *HarnessResult) RetryUnknowns(mk func() *Solver) (closed int) {
+	if len(r.Retry) == 0 {
+		return 0
+	}
+	s := mk()
+	defer s.Close()
+	for _, q := range r.Retry {
+		if s.CheckFresh(q.Decls, q.Asserts, 2*q.Ms) == "unsat" {
+			if st := r.Asserts[q.Label]; st != nil && st.Unknown > 0 {
+				st.Unknown--
+				st.Unsat++
+				r.Unknowns--
+				closed++
+			}
+		}
+	}
+	r.Queries += len(r.Retry)
+	return closed
 }
 
 type PathObs struct {
@@ -760,6 +793,10 @@ func (e *Engine) assertExcept(c *Term, label, finding string, pred *Term) {
 		neg = And(neg, Not(pred))
 	}
 	r, m, exact := e.checkNeg(neg)
+	var retry *RetryQuery
+	if r != "unsat" && r != "sat" {
+		retry = &RetryQuery{Label: label, Decls: append([]string{}, e.decls...), Asserts: e.pcStrings(neg), Ms: e.spec.AssertMs}
+	}
 	e.res.mu.Lock()
 	defer e.res.mu.Unlock()
 	switch r {
@@ -781,6 +818,9 @@ func (e *Engine) assertExcept(c *Term, label, finding string, pred *Term) {
 	default:
 		st.Unknown++
 		e.res.Unknowns++
+		if retry != nil && !active {
+			e.res.Retry = append(e.res.Retry, *retry)
+		}
 	}
 }
 
